@@ -132,7 +132,8 @@ fn run_doc(o: &mut Outcome, case: &Value) {
         }
     }
     // not machine-readable: anything that does not start with a Format field is refused by all three readers
-    for bad in [text.replacen("Format:", "Files:", 1), format!(" {}", text), format!("\n{}", text), text.replacen("Format:", "format:", 1)] {
+    for bad in [text.replacen("Format:", "Files:", 1), format!(" {}", text), format!("\n{}", text), text.replacen("Format:", "format:", 1),
+                text.replacen("Format:", "Format-Specification:", 1), text.replacen("Format:", "Formats:", 1), text.replacen("Format:", "X-Format:", 1), text.replacen("Format:", "Format :", 1)] {
         let a = debian_copyright::lossless::Copyright::from_str(&bad).is_ok();
         let b = debian_copyright::lossless::Copyright::from_str_relaxed(&bad).is_ok();
         let c = debian_copyright::lossy::Copyright::from_str(&bad).is_ok();
